@@ -84,6 +84,7 @@ def handleIO (line : String) : IO String := do
   | "jsfkeeps" :: rest => jsfkeepsLine (" ".intercalate rest)
   | "jsfc08" :: rest => jsfc08Line (" ".intercalate rest)
   | "jsfc12" :: rest => jsfc12Line (" ".intercalate rest)
+  | "oafc12" :: rest => oafc12Line (" ".intercalate rest)
   | "oafkeeps" :: rest => oafkeepsLine (" ".intercalate rest)
   | "oafc08" :: rest => oafc08Line (" ".intercalate rest)
   | "srcpy" :: rest => srcpyLine (" ".intercalate rest)
